@@ -274,6 +274,11 @@ def compare(want, got, call_names=None, literal_ulps=1.0):
             return None if (ulps(a.real, b.real) <= literal_ulps and ulps(a.imag, b.imag) <= literal_ulps) else f"literal {b!r} != {a!r}"
         if isinstance(a, int) and isinstance(b, int):
             return None if a == b else f"integer literal {b} != {a}"
+        # the kind of a constant is part of the tree: `1/2` (integer constants) is not `1.0/2.0`
+        if isinstance(a, float) and isinstance(b, int):
+            return f"floating literal {a!r} is emitted as the integer constant {b}"
+        if isinstance(a, int) and isinstance(b, float):
+            return f"integer literal {a} is emitted as the floating constant {b!r}"
         if ulps(float(a), float(b)) > literal_ulps:
             return f"literal reads back as {b!r}, {ulps(float(a), float(b)):.1f} ulp from {a!r}"
         return None
